@@ -310,7 +310,13 @@ func main() {
 	phases := []enum.Phase{
 		{Name: "accessors-do-not-change-the-packet", Len: sp.NeighLen(),
 			Describe: func(i int64) any { return sp.NeighCase(i).Describe() },
-			Run:      func(i int64, w *enum.Worker) { accessorSnapshots(sp.NeighCase(i), w) }},
+			Run: func(i int64, w *enum.Worker) {
+				if !gWarm {
+					checkGlobals(sp, w, 2) // warm-up and baseline of the package-level state
+				}
+				accessorSnapshots(sp.NeighCase(i), w)
+				globalsAfterCase(sp, w)
+			}},
 		{Name: "read-only-input", Len: sp.NeighLen(),
 			Describe: func(i int64) any { return sp.NeighCase(i).Describe() },
 			Run:      func(i int64, w *enum.Worker) { readOnlyInput(sp, i, w) }},
@@ -320,7 +326,7 @@ func main() {
 			},
 			Run: func(i int64, w *enum.Worker) { pairs(K, i, w) }},
 	}
-	r.Coverage["rule"] = "accessors: every input of the deviation<=1 neighbourhoods decoded eagerly (DSAD on/off), network layer attached; a deep snapshot (all fields of all layers incl. unexported, packet bytes) is taken before and after each group of read-only accessors (Layers/Layer/LayerClass, special layers and flows, String, Dump, LayerGoString, VerifyChecksums) and must not change. read-only input: the same inputs placed in an mmap'ed region that is mprotect'ed read-only, decoded with NoCopy (eager and lazy, DSAD on/off) and read with every accessor under SetPanicOnFault: any store into the input - even of an identical value - faults and is reported with its site. histories: every ordered pair (A,B) of the per-type seeds: A's packet is unchanged by decoding and reading B, decoding A again gives the identical packet, both input buffers are intact. distinct_nontrivial = distinct (layer sequence, error, truncated) outcomes."
+	r.Coverage["rule"] = "accessors: every input of the deviation<=1 neighbourhoods decoded eagerly (DSAD on/off), network layer attached; a deep snapshot (all fields of all layers incl. unexported, packet bytes) is taken before and after each group of read-only accessors (Layers/Layer/LayerClass, special layers and flows, String, Dump, LayerGoString, VerifyChecksums) and must not change. read-only input: the same inputs placed in an mmap'ed region that is mprotect'ed read-only, decoded with NoCopy (eager and lazy, DSAD on/off) and read with every accessor under SetPanicOnFault: any store into the input - even of an identical value - faults and is reported with its site. package-level state: every package-level variable of gopacket and layers (accessors generated from the working tree) rendered deeply, unexported fields included; after a warm-up over all unmodified seeds no variable may change while the cases are decoded and read (small variables compared after every case, large tables every 256 cases). histories: every ordered pair (A,B) of the per-type seeds: A's packet is unchanged by decoding and reading B, decoding A again gives the identical packet, both input buffers are intact. distinct_nontrivial = distinct (layer sequence, error, truncated) outcomes."
 	r.Coverage["history_corpus"] = len(K)
 	r.Assumptions = []string{"a store into the read-only mapping raises SIGSEGV, which SetPanicOnFault turns into a panic carrying the faulting address", "every decode gets its own exact-capacity copy of the input except in the read-only phase"}
 	enum.Main(r, phases)
